@@ -21,19 +21,22 @@ def _args(style, pairs):
 def _fft1(name, real_in, real_out):
     @spec(name, "F")
     def s(ch, T, name=name):
-        shape = ch.choose("shape", [(4,), (2, 4), (4, 2), (2, 2, 4), (3,), (6,), (3, 3), (4, 4), (5, 4), (3, 2)])
+        shape = ch.choose("shape", [(4,), (2, 4), (4, 2), (3,), (3, 3), (5, 4)] if T.quick else
+                          [(4,), (2, 4), (4, 2), (2, 2, 4), (3,), (6,), (3, 3), (4, 4), (5, 4), (3, 2)])
         nd = len(shape)
         axis = ch.choose("axis", [None] + A.int_axes(nd))
         L = shape[-1 if axis is None else axis]
         nfull = (L - 1) * 2 if name == "irfft" else L
-        n = ch.choose("n", [None, nfull, max(2, nfull - 2), nfull + 2, 3])
-        norm = ch.choose("norm", NORMS)
+        n = ch.choose("n", [None, nfull, max(2, nfull - 2), 3] if T.quick else [None, nfull, max(2, nfull - 2), nfull + 2, 3])
+        norm = ch.choose("norm", NORMS[:3] if T.quick else NORMS)
         style = ch.choose("style", ["kw", "pos"])
         if style == "pos" and axis is None and (norm is not None):
             axis = -1
         a = _args(style, [("n", n), ("axis", axis), ("norm", norm)])
         cplx_in = not real_in and ch.flag("complex_input")
-        x = T.arr(shape, cplx=(True if (name == "irfft" or cplx_in) else None))
+        # irfft also accepts a real-dtype half-spectrum (e.g. a magnitude response): its gradient must then be real
+        real_half_spectrum = name == "irfft" and ch.flag("real_dtype_input")
+        x = T.arr(shape, cplx=(False if real_half_spectrum else (True if (name == "irfft" or cplx_in) else None)))
         return Case(name, "np.fft.%s(x%s)" % (name, a), dict(x=x),
                     dict(rank=nd, axis_sign=A.sign_of(axis), n=("none" if n is None else ("odd" if n % 2 else ("eq" if n == nfull else ("short" if n < nfull else "long")))),
                          norm=norm, style=style, complex_input=bool(cplx_in or name == "irfft")), family="F", modes=("rev",))
@@ -49,9 +52,9 @@ _fft1("irfft", False, True)
 def _fftn(name, two):
     @spec(name, "F")
     def s(ch, T, name=name, two=two):
-        shape = ch.choose("shape", [(2, 4), (4, 2), (2, 2, 4), (4, 4), (3, 3), (5, 4)] + ([] if two else [(4,)]))
+        shape = ch.choose("shape", ([(2, 4), (4, 2), (3, 3)] if T.quick else [(2, 4), (4, 2), (2, 2, 4), (4, 4), (3, 3), (5, 4)]) + ([] if two else [(4,)]))
         nd = len(shape)
-        ax_opts = [None, (-2, -1), (0, 1), (-1, -2), (1, 0), (-1,), (0,), (0, 0), (-1, -1), (0, -1)]
+        ax_opts = [None, (-2, -1), (0, 1), (1, 0), (-1,), (0, 0), (0, -1)] if T.quick else [None, (-2, -1), (0, 1), (-1, -2), (1, 0), (-1,), (0,), (0, 0), (-1, -1), (0, -1)]
         if nd >= 3:
             ax_opts += [(0, 2), (0, 1, 2), (-3, -1)]
         ax_opts = [a for a in ax_opts if a is None or all(-nd <= i < nd for i in a)]
@@ -65,13 +68,15 @@ def _fftn(name, two):
             base.append((L - 1) * 2 if (name.startswith("irfft") and i == eff[-1]) else L)
         s_opts = [None, tuple(base), tuple(max(2, b - 2) for b in base), tuple(b + 2 for b in base)]
         sv = ch.choose("s", s_opts)
-        norm = ch.choose("norm", NORMS)
+        norm = ch.choose("norm", NORMS[:3] if T.quick else NORMS)
         style = ch.choose("style", ["kw", "pos"])
         if style == "pos" and norm is not None and axes is None:
             axes = eff
         a = _args(style, [("s", sv), ("axes", axes), ("norm", norm)])
         cplx = name.startswith("irfft") or (not name.startswith("rfft") and ch.flag("complex_input"))
-        x = T.arr(shape, cplx=(True if cplx else None))
+        if name.startswith("irfft") and ch.flag("real_dtype_input"):
+            cplx = False
+        x = T.arr(shape, cplx=(True if cplx else False if name.startswith("irfft") else None))
         rep = axes is not None and len(set(i % nd for i in axes)) < len(axes)
         return Case(name, "np.fft.%s(x%s)" % (name, a), dict(x=x),
                     dict(rank=nd, axes=("none" if axes is None else ("repeated" if rep else A.sign_of(axes))),
